@@ -434,6 +434,63 @@ func c14HelperSequences(msize uint32, dotu bool, depth int) Scenario {
 	}}
 }
 
+// c14MisreportedSize: files whose reported size says nothing about their content (the
+// host's proc file system reports 0 for files that have data): what is read through
+// the client is what the file holds.
+func c14MisreportedSize(msize uint32, dotu bool) Scenario {
+	name := fmt.Sprintf("files-with-misleading-size msize=%d dotu=%v", msize, dotu)
+	return Scenario{Name: name, Run: func(rc *RunCtx) *Result {
+		res := &Result{Exhaustive: true}
+		for _, fn := range []string{"version", "filesystems"} {
+			want, err := os.ReadFile("/proc/" + fn)
+			st, err2 := os.Stat("/proc/" + fn)
+			if err != nil || err2 != nil || len(want) == 0 || st.Size() >= int64(len(want)) {
+				continue // no such file system here
+			}
+			bad := withUfsClient("/proc", msize, dotu, func(c *go9p.Clnt, h *SrvH) string {
+				f, err := c.FOpen(fn, go9p.OREAD)
+				if err != nil {
+					return "FOpen: " + err.Error()
+				}
+				u := int(msize) - 24
+				var got []byte
+				for off := 0; ; {
+					b, err := c.Read(f.Fid, uint64(off), uint32(u))
+					res.Evals++
+					if err != nil {
+						return fmt.Sprintf("Clnt.Read at %d: %v", off, err)
+					}
+					if len(b) == 0 {
+						break
+					}
+					got = append(got, b...)
+					off += len(b)
+					if off > len(want)+u {
+						break
+					}
+				}
+				if !bytes.Equal(got, want) {
+					return fmt.Sprintf("reading /proc/%s (reported size %d) in iounit steps gave %d bytes, the file holds %d", fn, st.Size(), len(got), len(want))
+				}
+				buf := make([]byte, len(want)+10)
+				n, err := f.Readn(buf, 0)
+				res.Evals++
+				if (err != nil && err != io.EOF) || !bytes.Equal(buf[:n], want) {
+					return fmt.Sprintf("File.Readn of /proc/%s (reported size %d) gave %d bytes (%v), the file holds %d", fn, st.Size(), n, err, len(want))
+				}
+				return ""
+			})
+			res.Nontrivial = res.Evals
+			if bad != "" {
+				res.Findings = append(res.Findings, Finding{Sig: "C14/misreported-size/" + sigWords(bad), Msg: name + ": " + bad})
+				break
+			}
+		}
+		res.Samples = append(res.Samples, "the host's /proc/version and /proc/filesystems (reported size 0) exported and read in iounit steps and with File.Readn")
+		return res
+	}}
+}
+
 func c14ManyFiles(msize uint32, dotu bool) Scenario {
 	return Scenario{Name: fmt.Sprintf("eight-files msize=%d dotu=%v", msize, dotu), Run: func(rc *RunCtx) *Result {
 		res := &Result{Exhaustive: true}
@@ -565,6 +622,7 @@ func c14Scenarios(tier string) []Scenario {
 		hd = 4
 	}
 	out = append(out, c14HelperSequences(32, false, hd), c14HelperSequences(32, true, hd))
+	out = append(out, c14MisreportedSize(64, false), c14MisreportedSize(8216, true))
 	out = append(out, c14ManyFiles(40, false), c14ManyFiles(152, true))
 	out = append(out, c14Held(40, false), c14Held(152, true), c14Held(4120, false))
 	return out
@@ -573,7 +631,7 @@ func c14Scenarios(tier string) []Scenario {
 func init() {
 	register(&Property{ID: "C14", Level: "exploration",
 		Technique: "bounded-exhaustive enumeration of (file length, offset, count) triples through the real client and the real Ufs on a scratch tree, compared with the file's bytes on disk",
-		Rule:      "msize {32,40,152} (thorough + 33, 4120, 65560) x dialect x file lengths 0..3u+2 (every length for iounit u=8; boundary lengths 0,1,u-1,u,u+1,2u-1,2u,2u+1,3u+1 otherwise) with position-dependent contents; for small u every offset 0..len+2 x every count 0..2u+1 for Clnt.Read, File.ReadAt, File.Readn, Clnt.Write, File.Written; sequential File.Read / File.Write with every buffer size; 8 files interleaved; every sequence of 3 (thorough 4) calls over Read/ReadAt/Readn/Write/WriteAt/Written against a model of contents and offset; the same through a symbolic link and a hard link to the file. non-trivial = calls compared",
+		Rule:      "msize {32,40,152} (thorough + 33, 4120, 65560) x dialect x file lengths 0..3u+2 (every length for iounit u=8; boundary lengths 0,1,u-1,u,u+1,2u-1,2u,2u+1,3u+1 otherwise) with position-dependent contents; for small u every offset 0..len+2 x every count 0..2u+1 for Clnt.Read, File.ReadAt, File.Readn, Clnt.Write, File.Written; sequential File.Read / File.Write with every buffer size; 8 files interleaved; every sequence of 3 (thorough 4) calls over Read/ReadAt/Readn/Write/WriteAt/Written against a model of contents and offset; the same through a symbolic link and a hard link to the file; host files whose reported size is 0 although they have content (/proc). non-trivial = calls compared",
 		Assumptions: []string{"the host file system and package os are the reference", "client and server on the default schedule (data paths are sequential per fid)"},
 		Scenarios:   c14Scenarios, QuickS: 110, ThoroughS: 1200})
 }
